@@ -445,4 +445,537 @@ theorem findByErrorDomain_null_iff (dom : Str) (k0 : Nat) (libs : List Lib) :
     | null => simp [ih]
     | oob => simp
 
+/-! ### the repository state machine -/
+
+theorem registerClearsUnknown_now : registerClearsUnknown true = true ∧ registerClearsUnknown false = true := by
+  decide
+
+theorem orElse_assoc (a : RAns) (b c : Unit → RAns) :
+    orElse (orElse a b) c = orElse a (fun _ => orElse (b ()) c) := by
+  cases a <;> rfl
+
+theorem findByGTypeIn_info (g : Str) (cp : Bool) (libs : List TL) (hit : Hit)
+    (hf : findByGTypeIn g cp libs = .info hit) :
+    ∃ t ∈ libs, t.ns = hit.ns ∧ byGTypeName t.lib.dir g = .entry hit.idx hit.entry := by
+  induction libs with
+  | nil => simp [findByGTypeIn] at hf
+  | cons t ts ih =>
+    simp only [findByGTypeIn] at hf
+    split at hf
+    · obtain ⟨t', ht', h⟩ := ih hf
+      exact ⟨t', by simp [ht'], h⟩
+    · split at hf
+      · rename_i i e hb
+        cases hf
+        exact ⟨t, by simp, rfl, hb⟩
+      · obtain ⟨t', ht', h⟩ := ih hf
+        exact ⟨t', by simp [ht'], h⟩
+      · cases hf
+
+theorem findByGTypeIn_false_null_iff (g : Str) (libs : List TL) :
+    findByGTypeIn g false libs = .null ↔ ∀ t ∈ libs, byGTypeName t.lib.dir g = .null := by
+  induction libs with
+  | nil => simp [findByGTypeIn]
+  | cons t ts ih =>
+    simp only [findByGTypeIn, Bool.false_and, Bool.false_eq_true, if_false, List.mem_cons, forall_eq_or_imp]
+    cases hb : byGTypeName t.lib.dir g with
+    | entry i e => simp
+    | null => simp [ih]
+    | oob => simp
+
+theorem findByGTypeIn_null_of_all_null (g : Str) (cp : Bool) (libs : List TL)
+    (h : ∀ t ∈ libs, byGTypeName t.lib.dir g = .null) : findByGTypeIn g cp libs = .null := by
+  induction libs with
+  | nil => simp [findByGTypeIn]
+  | cons t ts ih =>
+    simp only [findByGTypeIn]
+    split
+    · exact ih (fun t' ht' => h t' (by simp [ht']))
+    · rw [h t (by simp)]
+      exact ih (fun t' ht' => h t' (by simp [ht']))
+
+theorem findByGTypeIn_append (g : Str) (cp : Bool) (a b : List TL) :
+    findByGTypeIn g cp (a ++ b) = orElse (findByGTypeIn g cp a) (fun _ => findByGTypeIn g cp b) := by
+  induction a with
+  | nil => simp [findByGTypeIn, orElse]
+  | cons t ts ih =>
+    simp only [List.cons_append, findByGTypeIn]
+    split
+    · exact ih
+    · split
+      · rfl
+      · exact ih
+      · rfl
+
+theorem searchGType_eq_spec (s : Repo) (g : Str) : searchGType s g = specFindByGType s.loaded g := by
+  unfold searchGType specFindByGType Repo.loaded
+  rw [findByGTypeIn_append, findByGTypeIn_append, orElse_assoc]
+
+theorem findByErrorDomainIn_info (dom : Str) (libs : List TL) (hit : Hit)
+    (hf : findByErrorDomainIn dom libs = .info hit) :
+    ∃ t ∈ libs, t.ns = hit.ns ∧ byErrorDomain t.lib.dir dom = .entry hit.idx hit.entry := by
+  induction libs with
+  | nil => simp [findByErrorDomainIn] at hf
+  | cons t ts ih =>
+    simp only [findByErrorDomainIn] at hf
+    split at hf
+    · rename_i i e hb
+      cases hf
+      exact ⟨t, by simp, rfl, hb⟩
+    · obtain ⟨t', ht', h⟩ := ih hf
+      exact ⟨t', by simp [ht'], h⟩
+    · cases hf
+
+theorem findByErrorDomainIn_null_iff (dom : Str) (libs : List TL) :
+    findByErrorDomainIn dom libs = .null ↔ ∀ t ∈ libs, byErrorDomain t.lib.dir dom = .null := by
+  induction libs with
+  | nil => simp [findByErrorDomainIn]
+  | cons t ts ih =>
+    simp only [findByErrorDomainIn, List.mem_cons, forall_eq_or_imp]
+    cases hb : byErrorDomain t.lib.dir dom with
+    | entry i e => simp
+    | null => simp [ih]
+    | oob => simp
+
+theorem findByErrorDomainIn_append (dom : Str) (a b : List TL) :
+    findByErrorDomainIn dom (a ++ b)
+      = orElse (findByErrorDomainIn dom a) (fun _ => findByErrorDomainIn dom b) := by
+  induction a with
+  | nil => simp [findByErrorDomainIn, orElse]
+  | cons t ts ih =>
+    simp only [List.cons_append, findByErrorDomainIn]
+    split
+    · rfl
+    · exact ih
+    · rfl
+
+theorem searchErrorDomain_eq_spec (s : Repo) (dom : Str) :
+    searchErrorDomain s dom = specFindByErrorDomain s.loaded dom := by
+  unfold searchErrorDomain specFindByErrorDomain Repo.loaded
+  rw [findByErrorDomainIn_append]
+
+/-- the cache-free searches satisfy the agreement clause on the typelibs they look at -/
+theorem spec_gtype_agrees (libs : List TL) (g : Str) :
+    (∀ hit, specFindByGType libs g = .info hit →
+        ∃ t ∈ libs, t.ns = hit.ns ∧ byGTypeName t.lib.dir g = .entry hit.idx hit.entry)
+    ∧ (specFindByGType libs g = .null ↔ ∀ t ∈ libs, byGTypeName t.lib.dir g = .null) := by
+  unfold specFindByGType
+  constructor
+  · intro hit hf
+    cases h1 : findByGTypeIn g true libs with
+    | info h' =>
+      rw [h1] at hf; simp only [orElse] at hf; cases hf
+      exact findByGTypeIn_info g true libs _ h1
+    | null =>
+      rw [h1] at hf; simp only [orElse] at hf
+      exact findByGTypeIn_info g false libs _ hf
+    | oob => rw [h1] at hf; simp [orElse] at hf
+  · constructor
+    · intro hf
+      cases h1 : findByGTypeIn g true libs with
+      | info h' => rw [h1] at hf; simp [orElse] at hf
+      | null =>
+        rw [h1] at hf; simp only [orElse] at hf
+        exact (findByGTypeIn_false_null_iff g libs).mp hf
+      | oob => rw [h1] at hf; simp [orElse] at hf
+    · intro hall
+      rw [findByGTypeIn_null_of_all_null g true libs hall]
+      simp only [orElse]
+      exact findByGTypeIn_null_of_all_null g false libs hall
+
+theorem spec_domain_agrees (libs : List TL) (dom : Str) :
+    (∀ hit, specFindByErrorDomain libs dom = .info hit →
+        ∃ t ∈ libs, t.ns = hit.ns ∧ byErrorDomain t.lib.dir dom = .entry hit.idx hit.entry)
+    ∧ (specFindByErrorDomain libs dom = .null ↔ ∀ t ∈ libs, byErrorDomain t.lib.dir dom = .null) :=
+  ⟨fun hit hf => findByErrorDomainIn_info dom libs hit hf, findByErrorDomainIn_null_iff dom libs⟩
+
+theorem findByGTypeIn_oob (g : Str) (cp : Bool) (libs : List TL)
+    (hf : findByGTypeIn g cp libs = .oob) : ∃ t ∈ libs, byGTypeName t.lib.dir g = .oob := by
+  induction libs with
+  | nil => simp [findByGTypeIn] at hf
+  | cons t ts ih =>
+    simp only [findByGTypeIn] at hf
+    split at hf
+    · obtain ⟨t', ht', h⟩ := ih hf
+      exact ⟨t', by simp [ht'], h⟩
+    · split at hf
+      · cases hf
+      · obtain ⟨t', ht', h⟩ := ih hf
+        exact ⟨t', by simp [ht'], h⟩
+      · rename_i hb
+        exact ⟨t, by simp, hb⟩
+
+theorem spec_gtype_oob (libs : List TL) (g : Str) (hf : specFindByGType libs g = .oob) :
+    ∃ t ∈ libs, byGTypeName t.lib.dir g = .oob := by
+  unfold specFindByGType at hf
+  cases h1 : findByGTypeIn g true libs with
+  | info h' => rw [h1] at hf; simp [orElse] at hf
+  | null =>
+    rw [h1] at hf; simp only [orElse] at hf
+    exact findByGTypeIn_oob g false libs hf
+  | oob => exact findByGTypeIn_oob g true libs h1
+
+theorem spec_domain_oob (libs : List TL) (dom : Str) (hf : specFindByErrorDomain libs dom = .oob) :
+    ∃ t ∈ libs, byErrorDomain t.lib.dir dom = .oob := by
+  unfold specFindByErrorDomain at hf
+  induction libs with
+  | nil => simp [findByErrorDomainIn] at hf
+  | cons t ts ih =>
+    simp only [findByErrorDomainIn] at hf
+    split at hf
+    · cases hf
+    · obtain ⟨t', ht', h⟩ := ih hf
+      exact ⟨t', by simp [ht'], h⟩
+    · rename_i hb
+      exact ⟨t, by simp, hb⟩
+
+/-- what a cache-free search has to satisfy for the three lemmas below -/
+structure SpecOK (by_ : TL → Found) (spec : RAns) (libs : List TL) : Prop where
+  info : ∀ hit, spec = .info hit → ∃ t ∈ libs, t.ns = hit.ns ∧ by_ t = .entry hit.idx hit.entry
+  null : spec = .null ↔ ∀ t ∈ libs, by_ t = .null
+  oob : spec = .oob → ∃ t ∈ libs, by_ t = .oob
+
+theorem specOK_gtype (libs : List TL) (g : Str) :
+    SpecOK (fun t => byGTypeName t.lib.dir g) (specFindByGType libs g) libs :=
+  ⟨(spec_gtype_agrees libs g).1, (spec_gtype_agrees libs g).2, spec_gtype_oob libs g⟩
+
+theorem specOK_domain (libs : List TL) (dom : Str) :
+    SpecOK (fun t => byErrorDomain t.lib.dir dom) (specFindByErrorDomain libs dom) libs :=
+  ⟨(spec_domain_agrees libs dom).1, (spec_domain_agrees libs dom).2, spec_domain_oob libs dom⟩
+
+/-- the uncached path: the answer IS the cache-free search -/
+theorem agrees_of_spec {by_ : TL → Found} {spec : RAns} {libs : List TL} (h : SpecOK by_ spec libs) :
+    AgreesWith by_ spec libs spec :=
+  ⟨h.info, h.null, fun _ => rfl⟩
+
+/-- the positive cache: an info that a still-loaded typelib justifies -/
+theorem agrees_of_cached {by_ : TL → Found} {spec : RAns} {libs : List TL} (h : SpecOK by_ spec libs)
+    (hit : Hit) (hc : ∃ t ∈ libs, t.ns = hit.ns ∧ by_ t = .entry hit.idx hit.entry) :
+    AgreesWith by_ spec libs (.info hit) := by
+  obtain ⟨t, ht, hns, hby⟩ := hc
+  refine ⟨?_, ?_, ?_⟩
+  · intro hit' he
+    cases he
+    exact ⟨t, ht, hns, hby⟩
+  · constructor
+    · intro he; cases he
+    · intro hall
+      rw [hall t ht] at hby; cases hby
+  · intro huniq
+    cases hs : spec with
+    | info hit' =>
+      obtain ⟨t', ht', hns', hby'⟩ := h.info hit' hs
+      have := huniq t ht t' ht' (by rw [hby]; simp) (by rw [hby']; simp)
+      subst this
+      rw [hby] at hby'
+      cases hit; cases hit'
+      simp only [Found.entry.injEq] at hby'
+      simp_all
+    | null =>
+      have := (h.null.mp hs) t ht
+      rw [this] at hby; cases hby
+    | oob =>
+      obtain ⟨t', ht', hby'⟩ := h.oob hs
+      have := huniq t ht t' ht' (by rw [hby]; simp) (by rw [hby']; simp)
+      subst this
+      rw [hby] at hby'; cases hby'
+
+/-- the negative cache: NULL while every loaded typelib answers NULL -/
+theorem agrees_of_unknown {by_ : TL → Found} {spec : RAns} {libs : List TL} (h : SpecOK by_ spec libs)
+    (hall : ∀ t ∈ libs, by_ t = .null) : AgreesWith by_ spec libs .null :=
+  ⟨fun _ he => (by cases he), ⟨fun _ => hall, fun _ => rfl⟩, fun _ => (h.null.mpr hall).symm⟩
+
+theorem lookupCache_some (c : List (Str × Hit)) (k : Str) (hit : Hit) (h : lookupCache c k = some hit) :
+    (k, hit) ∈ c := by
+  unfold lookupCache at h
+  split at h
+  · rename_i p hp
+    cases h
+    have hk := List.find?_some hp
+    have hm := List.mem_of_find?_eq_some hp
+    have : p.1 = k := by simpa using hk
+    rw [← this]
+    exact hm
+  · cases h
+
+theorem lookupNs_some (l : List TL) (ns : Str) (t : TL) (h : lookupNs l ns = some t) : t ∈ l ∧ t.ns = ns := by
+  unfold lookupNs at h
+  exact ⟨List.mem_of_find?_eq_some h, by simpa using List.find?_some h⟩
+
+theorem lookupNs_none (l : List TL) (ns : Str) : lookupNs l ns = none ↔ ∀ t ∈ l, t.ns ≠ ns := by
+  unfold lookupNs
+  simp [List.find?_eq_none]
+
+theorem ns_inj_of_nodup (l : List TL) (hnd : (l.map (·.ns)).Nodup) (a b : TL) (ha : a ∈ l) (hb : b ∈ l)
+    (h : a.ns = b.ns) : a = b := by
+  induction l with
+  | nil => cases ha
+  | cons x xs ih =>
+    simp only [List.map_cons, List.nodup_cons, List.mem_map, not_exists, not_and] at hnd
+    rcases List.mem_cons.mp ha with rfl | ha' <;> rcases List.mem_cons.mp hb with rfl | hb'
+    · rfl
+    · exact absurd h.symm (hnd.1 b hb')
+    · exact absurd h (hnd.1 a ha')
+    · exact ih hnd.2 ha' hb'
+
+theorem getRegistered_some (s : Repo) (ns : Str) (t : TL) (h : getRegistered s ns = some t) :
+    t ∈ s.loaded ∧ t.ns = ns := by
+  unfold getRegistered at h
+  unfold Repo.loaded
+  split at h
+  · rename_i t' ht'
+    cases h
+    obtain ⟨hm, hn⟩ := lookupNs_some _ _ _ ht'
+    exact ⟨List.mem_append_left _ hm, hn⟩
+  · obtain ⟨hm, hn⟩ := lookupNs_some _ _ _ h
+    exact ⟨List.mem_append_right _ hm, hn⟩
+
+theorem getRegistered_none (s : Repo) (ns : Str) : getRegistered s ns = none ↔ ∀ t ∈ s.loaded, t.ns ≠ ns := by
+  unfold getRegistered Repo.loaded
+  constructor
+  · intro h
+    split at h
+    · cases h
+    · rename_i he
+      intro t ht
+      rcases List.mem_append.mp ht with ht | ht
+      · exact (lookupNs_none _ _).mp he t ht
+      · exact (lookupNs_none _ _).mp h t ht
+  · intro hall
+    have he : lookupNs s.eager ns = none :=
+      (lookupNs_none _ _).mpr (fun t ht => hall t (List.mem_append_left _ ht))
+    have hl : lookupNs s.lazy ns = none :=
+      (lookupNs_none _ _).mpr (fun t ht => hall t (List.mem_append_right _ ht))
+    rw [he]
+    exact hl
+
+theorem getRegistered_of_mem (s : Repo) (hnd : (s.loaded.map (·.ns)).Nodup) (t : TL) (ht : t ∈ s.loaded) :
+    getRegistered s t.ns = some t := by
+  cases h : getRegistered s t.ns with
+  | none => exact absurd rfl ((getRegistered_none s t.ns).mp h t ht)
+  | some t' =>
+    obtain ⟨hm, hn⟩ := getRegistered_some s t.ns t' h
+    rw [ns_inj_of_nodup s.loaded hnd t' t hm ht hn]
+
+theorem mem_insertAt (l : List TL) (pos : Nat) (t x : TL) : x ∈ insertAt l pos t ↔ x = t ∨ x ∈ l := by
+  unfold insertAt
+  rw [List.mem_append, List.mem_cons]
+  constructor
+  · rintro (h | h | h)
+    · exact Or.inr (List.mem_of_mem_take h)
+    · exact Or.inl h
+    · exact Or.inr (List.mem_of_mem_drop h)
+  · rintro (h | h)
+    · exact Or.inr (Or.inl h)
+    · rw [← List.take_append_drop pos l, List.mem_append] at h
+      rcases h with h | h
+      · exact Or.inl h
+      · exact Or.inr (Or.inr h)
+
+theorem insertAt_perm (l : List TL) (pos : Nat) (t : TL) : (insertAt l pos t).Perm (t :: l) := by
+  unfold insertAt
+  have := List.perm_middle (a := t) (l₁ := l.take pos) (l₂ := l.drop pos)
+  rwa [List.take_append_drop] at this
+
+theorem step_findByGType (s : Repo) (g : Str) (hi : Inv s) :
+    Inv (findByGTypeOp s g).1 ∧ (findByGTypeOp s g).1.loaded = s.loaded
+      ∧ AnswerOK s (.findByGType g) (findByGTypeOp s g).2 := by
+  have hspec := specOK_gtype s.loaded g
+  unfold findByGTypeOp
+  simp only [AnswerOK]
+  split
+  · rename_i hit hc
+    exact ⟨hi, rfl, agrees_of_cached hspec hit (hi.gtype (g, hit) (lookupCache_some _ _ _ hc))⟩
+  · split
+    · rename_i hu
+      have hu' : g ∈ s.unknownGTypes := by simpa using hu
+      exact ⟨hi, rfl, agrees_of_unknown hspec (hi.unknown g hu')⟩
+    · have hsearch := searchGType_eq_spec s g
+      split
+      · rename_i hit hs
+        rw [hsearch] at hs
+        refine ⟨⟨hi.unknown, ?_, hi.domain, hi.nodup⟩, rfl, ?_⟩
+        · intro p hp
+          rcases List.mem_cons.mp hp with rfl | hp'
+          · exact hspec.info hit hs
+          · exact hi.gtype p hp'
+        · rw [← hs]; exact agrees_of_spec hspec
+      · rename_i hs
+        rw [hsearch] at hs
+        refine ⟨⟨?_, hi.gtype, hi.domain, hi.nodup⟩, rfl, ?_⟩
+        · intro g' hg'
+          rcases List.mem_cons.mp hg' with rfl | hg''
+          · exact hspec.null.mp hs
+          · exact hi.unknown g' hg''
+        · rw [← hs]; exact agrees_of_spec hspec
+      · rename_i hs
+        rw [hsearch] at hs
+        refine ⟨hi, rfl, ?_⟩
+        rw [← hs]; exact agrees_of_spec hspec
+
+theorem step_findByErrorDomain (s : Repo) (dom : Str) (hi : Inv s) :
+    Inv (findByErrorDomainOp s dom).1 ∧ (findByErrorDomainOp s dom).1.loaded = s.loaded
+      ∧ AnswerOK s (.findByErrorDomain dom) (findByErrorDomainOp s dom).2 := by
+  have hspec := specOK_domain s.loaded dom
+  unfold findByErrorDomainOp
+  simp only [AnswerOK]
+  split
+  · rename_i hit hc
+    exact ⟨hi, rfl, agrees_of_cached hspec hit (hi.domain (dom, hit) (lookupCache_some _ _ _ hc))⟩
+  · have hsearch := searchErrorDomain_eq_spec s dom
+    split
+    · rename_i hit hs
+      rw [hsearch] at hs
+      refine ⟨⟨hi.unknown, hi.gtype, ?_, hi.nodup⟩, rfl, ?_⟩
+      · intro p hp
+        rcases List.mem_cons.mp hp with rfl | hp'
+        · exact hspec.info hit hs
+        · exact hi.domain p hp'
+      · rw [← hs]; exact agrees_of_spec hspec
+    · refine ⟨hi, rfl, ?_⟩
+      rw [hsearch]; exact agrees_of_spec hspec
+
+theorem step_findByName (s : Repo) (ns name : Str) (hi : Inv s) :
+    AnswerOK s (.findByName ns name) (findByNameOp s ns name) := by
+  simp only [AnswerOK]
+  constructor
+  · intro t ht hns
+    subst hns
+    unfold findByNameOp
+    rw [getRegistered_of_mem s hi.nodup t ht]
+  · intro hall
+    unfold findByNameOp
+    rw [(getRegistered_none s ns).mpr hall]
+
+/-- the invariant only reads membership in the tables, the namespaces and the caches -/
+theorem inv_transfer (s s' : Repo) (hi : Inv s)
+    (hmem : ∀ t, t ∈ s'.loaded ↔ t ∈ s.loaded) (hnd : (s'.loaded.map (·.ns)).Nodup)
+    (hu : s'.unknownGTypes = s.unknownGTypes) (hg : s'.infoByGType = s.infoByGType)
+    (hd : s'.infoByErrorDomain = s.infoByErrorDomain) : Inv s' := by
+  refine ⟨?_, ?_, ?_, hnd⟩
+  · intro g hg' t ht
+    exact hi.unknown g (hu ▸ hg') t ((hmem t).mp ht)
+  · intro p hp
+    obtain ⟨t, ht, h⟩ := hi.gtype p (hg ▸ hp)
+    exact ⟨t, (hmem t).mpr ht, h⟩
+  · intro p hp
+    obtain ⟨t, ht, h⟩ := hi.domain p (hd ▸ hp)
+    exact ⟨t, (hmem t).mpr ht, h⟩
+
+theorem step_rehash (s : Repo) (e l : List TL) (hi : Inv s) (hok : OpOk s (.rehash e l)) :
+    Inv { s with eager := e, lazy := l } := by
+  obtain ⟨he, hl⟩ := hok
+  have hperm : (e ++ l).Perm (s.eager ++ s.lazy) := List.Perm.append he hl
+  refine inv_transfer s _ hi (fun t => hperm.mem_iff) ?_ rfl rfl rfl
+  exact ((hperm.map (·.ns)).nodup_iff).mpr hi.nodup
+
+theorem isRegistered_false (s : Repo) (ns : Str) (lazy : Bool) (h : isRegistered s ns lazy = false) :
+    lookupNs s.eager ns = none ∧ (lazy = true → lookupNs s.lazy ns = none) := by
+  unfold isRegistered at h
+  split at h
+  · cases h
+  · rename_i he
+    refine ⟨he, ?_⟩
+    intro hl
+    split at h
+    · assumption
+    · subst hl; cases h
+
+/-- `register_internal` never trips its assertion when called from the load functions -/
+theorem loadOp_ne_none (s : Repo) (t : TL) (lazy : Bool) (pos : Nat) : loadOp s t lazy pos ≠ none := by
+  unfold loadOp
+  split
+  · simp
+  · rename_i hreg
+    have hreg' : isRegistered s t.ns lazy = false := by simpa using hreg
+    obtain ⟨_, hl⟩ := isRegistered_false s t.ns lazy hreg'
+    unfold registerInternal registerInternalWith
+    cases lazy with
+    | true => simp [hl rfl]
+    | false => simp
+
+theorem step_load (s s' : Repo) (t : TL) (lazy : Bool) (pos : Nat) (hi : Inv s)
+    (hok : OpOk s (.load t lazy pos)) (h : loadOp s t lazy pos = some s') : Inv s' := by
+  obtain ⟨hct, hcf⟩ := registerClearsUnknown_now
+  unfold loadOp at h
+  split at h
+  · cases h; exact hi
+  · rename_i hreg
+    have hreg' : isRegistered s t.ns lazy = false := by simpa using hreg
+    obtain ⟨he, hl⟩ := isRegistered_false s t.ns lazy hreg'
+    have hne : ∀ x ∈ s.eager, x.ns ≠ t.ns := (lookupNs_none _ _).mp he
+    have hnd0 := hi.nodup
+    unfold Repo.loaded at hnd0
+    rw [List.map_append] at hnd0
+    unfold registerInternal registerInternalWith at h
+    cases lazy with
+    | true =>
+      have hl' := hl rfl
+      have hnl : ∀ x ∈ s.lazy, x.ns ≠ t.ns := (lookupNs_none _ _).mp hl'
+      simp only [hl', hct, if_true] at h
+      cases h
+      refine ⟨(by intro g hg; cases hg), ?_, ?_, ?_⟩
+      · intro p hp
+        obtain ⟨x, hx, hh⟩ := hi.gtype p hp
+        refine ⟨x, ?_, hh⟩
+        unfold Repo.loaded at hx ⊢
+        rcases List.mem_append.mp hx with hx | hx
+        · exact List.mem_append_left _ hx
+        · exact List.mem_append_right _ ((mem_insertAt _ _ _ _).mpr (Or.inr hx))
+      · intro p hp
+        obtain ⟨x, hx, hh⟩ := hi.domain p hp
+        refine ⟨x, ?_, hh⟩
+        unfold Repo.loaded at hx ⊢
+        rcases List.mem_append.mp hx with hx | hx
+        · exact List.mem_append_left _ hx
+        · exact List.mem_append_right _ ((mem_insertAt _ _ _ _).mpr (Or.inr hx))
+      · show ((s.eager ++ insertAt s.lazy pos t).map (·.ns)).Nodup
+        have hp : (s.eager ++ insertAt s.lazy pos t).Perm (t :: (s.eager ++ s.lazy)) :=
+          ((insertAt_perm s.lazy pos t).append_left s.eager).trans List.perm_middle
+        rw [((hp.map (·.ns)).nodup_iff)]
+        simp only [List.map_cons, List.nodup_cons, List.mem_map, List.mem_append, not_exists, not_and]
+        refine ⟨?_, by simpa [Repo.loaded] using hi.nodup⟩
+        intro x hx
+        rcases hx with hx | hx
+        · exact hne x hx
+        · exact hnl x hx
+    | false =>
+      simp only [Bool.false_eq_true, if_false, hcf, if_true] at h
+      cases h
+      have hsame := hok rfl
+      have hwit : ∀ x ∈ s.loaded, ∃ y ∈ insertAt s.eager pos t ++ s.lazy.filter (fun x => !(x.ns == t.ns)),
+          y.ns = x.ns ∧ y.lib.dir = x.lib.dir := by
+        intro x hx
+        unfold Repo.loaded at hx
+        rcases List.mem_append.mp hx with hx | hx
+        · exact ⟨x, List.mem_append_left _ ((mem_insertAt _ _ _ _).mpr (Or.inr hx)), rfl, rfl⟩
+        · by_cases hxn : x.ns = t.ns
+          · exact ⟨t, List.mem_append_left _ ((mem_insertAt _ _ _ _).mpr (Or.inl rfl)), hxn.symm,
+              (hsame x hx hxn).symm⟩
+          · exact ⟨x, List.mem_append_right _ (List.mem_filter.mpr ⟨hx, by simpa using hxn⟩), rfl, rfl⟩
+      refine ⟨(by intro g hg; cases hg), ?_, ?_, ?_⟩
+      · intro p hp
+        obtain ⟨x, hx, hns, hby⟩ := hi.gtype p hp
+        obtain ⟨y, hy, hyn, hyd⟩ := hwit x hx
+        exact ⟨y, hy, hyn.trans hns, by rw [hyd]; exact hby⟩
+      · intro p hp
+        obtain ⟨x, hx, hns, hby⟩ := hi.domain p hp
+        obtain ⟨y, hy, hyn, hyd⟩ := hwit x hx
+        exact ⟨y, hy, hyn.trans hns, by rw [hyd]; exact hby⟩
+      · show ((insertAt s.eager pos t ++ s.lazy.filter (fun x => !(x.ns == t.ns))).map (·.ns)).Nodup
+        have hp : (insertAt s.eager pos t ++ s.lazy.filter (fun x => !(x.ns == t.ns))).Perm
+            (t :: (s.eager ++ s.lazy.filter (fun x => !(x.ns == t.ns)))) :=
+          (insertAt_perm s.eager pos t).append_right _
+        rw [((hp.map (·.ns)).nodup_iff)]
+        simp only [List.map_cons, List.nodup_cons, List.mem_map, List.mem_append, List.mem_filter, not_exists,
+          not_and]
+        constructor
+        · intro x hx
+          rcases hx with hx | ⟨_, hx⟩
+          · exact hne x hx
+          · simpa using hx
+        · have hsub : (s.eager ++ s.lazy.filter (fun x => !(x.ns == t.ns))).Sublist (s.eager ++ s.lazy) :=
+            List.Sublist.append_left List.filter_sublist s.eager
+          exact (hi.nodup).sublist (hsub.map (·.ns))
+
 end GIVerif.Lookup
